@@ -126,6 +126,9 @@ func gen(t *rapid.T) scen.Case {
 	c.Bystanders = rapid.Bool().Draw(t, "by")
 	c.ForeignVol = rapid.IntRange(0, 3).Draw(t, "foreign") == 0
 	c.DupVol = rapid.IntRange(0, 3).Draw(t, "dup") == 0
+	if rapid.IntRange(0, 4).Draw(t, "stale") == 0 {
+		c.StaleNRec = rapid.IntRange(1, 9).Draw(t, "stalenrec")
+	}
 	return c
 }
 
@@ -151,6 +154,9 @@ func TestCheck(t *testing.T) {
 		}
 		if c.DupVol {
 			rec.Class("duplicate-volume")
+		}
+		if c.StaleNRec > 0 && c.StaleNRec != c.NRec {
+			rec.Class("stale-overlapping-volumes")
 		}
 		for _, d := range c.Damage {
 			rec.Class("damage=" + d.Op)
